@@ -509,6 +509,7 @@ func (f *FnEnc) doMakeSlice(x *ssa.MakeSlice) {
 	ac := f.e.reg.arrComp(st.Elem())
 	es := f.e.reg.sortOf(st.Elem())
 	zero := f.e.reg.zeroOf(st.Elem())
+	zero = strings.ReplaceAll(strings.ReplaceAll(zero, "anil", "(mkAny 0 0)"), "slnil", "(mkSlice 0 0 0 0)")
 	f.setComp(ac, fmt.Sprintf("(store %s %s ((as const (Array Int %s)) %s))", f.comp(ac), r, es, zero), f.compSort(ac))
 	f.setVal(x, fmt.Sprintf("(mkSlice %s 0 %s %s)", r, ln, cp))
 }
